@@ -840,7 +840,9 @@ def gen_part(rng, start=None, concat=False, force_names=None):
 def gen_default_props(rng, dtypes):
     props = []
     if rng.random() < 0.3:
-        props.append([rng.choice(['*_x', '*', 'alpha*', '*a*x']), {'o': enc_rat(rng.choice(OFFSETS))}])
+        # (the last four match a proper PREFIX of a sensor name only: a wildcard key covers the whole name or nothing)
+        props.append([rng.choice(['*_x', '*', 'alpha*', '*a*x', 'alp*a', 'g*ma', '*ps_x', 'b*a']),
+                      {'o': enc_rat(rng.choice(OFFSETS))}])
     for nm, dt in dtypes.items():
         if rng.random() < 0.15:
             kw = gen_kw(rng, dt)
